@@ -3,6 +3,7 @@
 tier=${1:-quick}
 out=/verif/seeded/SWEEP.txt; : > $out
 cd /repo && git diff --quiet || { echo "/repo working tree is not clean"; exit 3; }
+saved=$(mktemp -d); cp /verif/evidence/*.json $saved/   # evidence must describe runs on the unchanged tree only
 for d in /verif/seeded/*/; do
   n=$(basename $d); p=${n%%_*}
   cd /repo && git apply $d/patch.diff || { echo "$n PATCH-DOES-NOT-APPLY" >> $out; continue; }
@@ -11,4 +12,5 @@ for d in /verif/seeded/*/; do
   cls=$(echo "$res" | grep -E "VIOLATION|TOOL-ERROR" | sed -E 's/.*class=([^ ]+).*/\1/' | sort -u | head -3 | tr '\n' ' ')
   echo "$n check=$p tier=$tier exit=$rc ${cls} ($((e-s))s)" >> $out
 done
+cp $saved/*.json /verif/evidence/; rm -rf $saved
 cat $out
